@@ -342,7 +342,7 @@ def run(tier: str) -> int:
               "rule with a rounding key in the default graph, rounded vs unrounded on random valid populations, "
               "oracle from the real unrounded float; derived columns vs plain conversion of the rounded column")
     emit_lean.regenerate()
-    common.build_and_audit(r, ["C10", "C10Inst"], leanchecker=not quick)
+    common.build_and_audit(r, ["C10", "C10Sim", "C10Inst"], leanchecker=not quick)
     rnd = common.rng("C10")
     corr.run_cases(r, "rounding wrapper vs Core/Round.lean", wrapper_cases(rnd, 300 if quick else 5000))
     wrapper_rowwise(r, rnd, 12 if quick else 150)
